@@ -220,6 +220,14 @@ def scale_run(arg):
 def run(tier, seed):
     mc, sim = plans(tier)
     ck = nc.run_property("C19", tier, seed, "Inv19", PROFILE, mc, sim, 1200 if tier == "thorough" else 200, ASSUME, enum_plan=enum_plans(tier))
+    # ---- the free grain: IdleClean after every single thread step, under every interleaving ---------------
+    th = tier == "thorough"
+    nc.free_phase(ck, "C19", [
+        dict(cfg="A", depth=10 if th else 8, maxtime=3, alpha=["cerok", "req1"], faults=True, maxconn=1, invs=["IdleClean"],
+             guard=dict(pinned=["F19cd"], invs=["IdleClean"]),
+             sim=300 if th else 50, sim_depth=22, sim_alpha=["cerok", "req1", "dwr", "dpr", "garbage"], sim_maxconn=3, sim_maxtime=12),
+        dict(cfg="B", depth=9 if th else 8, maxtime=3, alpha=["ceaok", "dpr"], faults=True, maxconn=2, invs=["IdleClean"],
+             sim=300 if th else 50, sim_depth=22, sim_alpha=["ceaok", "dpr", "dwr", "send1", "sans"], sim_maxconn=3, sim_maxtime=12)], seed)
     # ---- D. scaling ---------------------------------------------------------------
     ns = [1, 10, 100] + ([1000] if tier == "thorough" else [])
     kinds = TX_KINDS + CONN_KINDS
